@@ -1,26 +1,89 @@
 """C09 — task graphs are closed, acyclic, unambiguous and free of planner objects."""
 from __future__ import annotations
 
+import re
+
 from harness import graphs, plans, programs
-from harness.core import Failure, Family, Support, drive
-from harness.props import c12
+from harness.core import LEAN, Failure, Family, Support, drive, known_findings
+from harness.props import c09_layers, c12
 
 LEAN_MODULES = ["DxModel.Props.C09"]
-GENERATED = []
+GENERATED = ["LayerClasses"]
 TRUSTED = [
     "harness/graphs.py: extraction of (key, referenced keys) from real dask task tuples (dask's own key-reference convention)",
     "model assumption: global keys are (owner expression, local key) — established for modelled layers by the exact graph-equality ties (owner tag @self) and for all layers of the vetted plans by the per-layer overlap check",
+    "harness/extractors_layers.py: the class -> model map MODELS (a class mapped to the wrong model is caught only as far as the tie family named in the map exercises that class; every class of MUST_FLAT / MUST_GATHER / the own-_task list must have an instance or the family is broken)",
+    "harness/props/c09_layers.py: canonical text of real flat layers (key arguments found by walking task tuples/lists/dicts in order); recorder around _filtered_task",
+    "dask legacy helpers whose RESULTS are inputs of the models: _get_partitions (loc), check_meta (concat pass-through), pair_partitions (merge_asof), tree_width / tree_groups (create_merge_tree), iter_chunks / memory usage (RepartitionSize), the float boundary and fusion-step arithmetic",
+    "lean/Driver/LayerOK.lean: rendering of the closed-form scan keys (level e, block k) of MergeAsofIndexed back to (pos, d, phase) = ((k+1)*2^e - 1, 2^e, phase)",
+    "ties of the generators modelled for other properties are run by those properties' checks (c02 tree/cumulative/overlap/blockwise, c10 BroadcastJoin, c13 repartition, c17 FromGraph/_DelayedExpr); C09 re-runs c12's shuffle family and checks the hypotheses its own theorems add",
 ]
+# the classes that build graph structure themselves and have no Lean model — the SAME list as `knownUnmodelled`
+# in lean/DxModel/Props/C09.lean and as the uncovered classes of the live table (family `unmodelled_lists`)
+UNMODELLED = {
+    "HashJoinP2P": "needs `distributed` (not installed here): _layer cannot be called; never reached by any program that runs in this environment",
+    "P2PShuffle": "needs `distributed` (not installed here)",
+}
 PARTIAL = [
-    "LayerOK is proven for the shuffle layers here (C09_layer_*) and for the generators of C02/C13/C14 in their own files; layers of merge_asof, quantiles, _indexing are only covered by the proven checker run on real graphs (T3)",
+    "classes with a hand-written layer and NO Lean model (= knownUnmodelled of Props/C09.lean): "
+    + "; ".join(f"{k} — {v}" for k, v in UNMODELLED.items()),
+    "C09_layer_broadcastjoin is proven for the unfiltered expression; with a `_partitions` selection the layer numbers its outputs by ORIGINAL partition number (C09_layer_broadcastjoin_filtered_counterexample; finding D66, listed under C11, replayed here as a cross-listed witness)",
+    "CreateOverlappingPartitions: integer windows are modelled; timedelta windows (_tail_timedelta/_head_timedelta branches) only through the proven checker on real graphs (programs rolling_timedelta, shift_timedelta)",
+    "ResolveOverlappingDivisions: keys and references are modelled, the nesting of drop_overlap/get_overlap inside one task is not",
+    "MergeAsofIndexed: the keys (name, pos, d, phase) of prefix/suffix_reduction are modelled in closed form (level, block); that the loops produce exactly these keys is established by exact graph equality for the partition counts run (quick: up to 5 right partitions, thorough: up to 17), not by a proof about the while-loops",
+    "Fused: the outer task is covered here (Blockwise shape); the sub-graph inside the task is C14_task (with its open finding D60)",
+    "FromGraph / _DelayedExpr are well formed RELATIVE to the imported graph (closed, acyclic, containing the requested keys; no task reading the Delayed's own key): foreign graphs are only checked, not modelled",
+    "the `listing = domain` half of exact graph equality (Listed) is proven for the flat and gather models and TreeReduce (C02_tree_dict); for the other models the driver renders a listed key without task as !undefined, which the exact ties would show, but a task defined outside the listing would go unnoticed",
+    "inputs of the models (each checked against the theorem's hypothesis on real values, T3): concat pass-through flags, _get_partitions results, pair_partitions result, fusion step, tree_width/tree_groups, repartition boundaries / nsplits, TaskShuffle stage arithmetic",
+    "observation reported as CANDIDATE-FINDING, not counted: x.persist() + x (fuse=False) defines the keys of x twice (literal and task, equal values) — by design of persist",
 ]
 EXPLANATION = (
     "Theorems: a plan of LayerOK layers merges into a closed, ranked graph defining every output key (any plan size); "
-    "soundness of the order checker. Tie: exact graph equality of the modelled _layer() generators; the proven checker "
-    "accepts the real __dask_graph__() of every vetted program at every optimizer stage (closure, acyclicity, unique keys), "
-    "plus object-graph walk for embedded Expr/collection objects, pickling under dask-expr-no-serialize, and per-layer key "
+    "C09_plan_of_models instantiates that for plans of layer MODELS; LayerWF (closed relative to the dependencies' "
+    "partition counts, ranked, exactly the output keys (name,i), no foreign key) for every modelled generator and all "
+    "parameters; soundness of the order checker; the coverage table (GENERATED from the live classes on every run) is "
+    "decided by the kernel: every class that overrides _layer/_task/_filtered_task/_blockwise_arg/_broadcast_dep/"
+    "dependencies/_fusion_buckets is covered by a theorem, abstract, or in knownUnmodelled, and its source hash is the "
+    "committed one. Ties: exact graph equality of the flat/gather generators and of the shuffle layers with the real "
+    "_layer(); reference sets of every Blockwise-derived _task; hypotheses of the repartition theorems on real parameters; "
+    "the proven checker accepts the real __dask_graph__() of every vetted program and of the C09 extra programs (which "
+    "reach every layer class that can run here) at every optimizer stage (closure, acyclicity, unique keys), plus "
+    "object-graph walk for embedded Expr/collection objects, pickling under dask-expr-no-serialize, and per-layer key "
     "overlap comparison."
 )
+
+
+def _known_unmodelled_lean():
+    src = (LEAN / "DxModel" / "Props" / "C09.lean").read_text()
+    m = re.search(r"def knownUnmodelled : List String :=\s*\[(.*?)\]", src, flags=re.S)
+    return re.findall(r'"(\w+)"', m.group(1)) if m else []
+
+
+# --------------------------------------------------------------------------- one plan
+
+
+def _fingerprint(x, depth=0):
+    """A description of a task that distinguishes literal arguments (rtask renders every array as `?ndarray`)."""
+    import hashlib
+
+    import numpy as np
+    import pandas as pd
+
+    if depth > 8:
+        return "…"
+    if isinstance(x, (tuple, list)):
+        return ("(" if isinstance(x, tuple) else "[") + ",".join(_fingerprint(y, depth + 1) for y in x) + ")"
+    if isinstance(x, dict):
+        return "{" + ",".join(f"{k!r}:{_fingerprint(v, depth + 1)}" for k, v in sorted(x.items(), key=lambda kv: repr(kv[0]))) + "}"
+    if isinstance(x, np.ndarray):
+        return "nd:" + hashlib.md5(np.ascontiguousarray(x).tobytes() + str(x.dtype).encode()).hexdigest()[:8]
+    if isinstance(x, (pd.DataFrame, pd.Series, pd.Index)):
+        return f"pd:{type(x).__name__}:{x.shape}"
+    if x is None or isinstance(x, (bool, int, float, str, slice, np.integer, np.floating)):
+        return repr(x)
+    if callable(x):
+        return "fn:" + (getattr(x, "__qualname__", None) or getattr(x, "__name__", None) or type(x).__name__)
+    return "?" + type(x).__name__
 
 
 def _layer_overlaps(expr):
@@ -37,10 +100,24 @@ def _layer_overlaps(expr):
         names_seen.add(e._name)
         stack.extend(e.dependencies())
         for k, v in e._layer().items():
-            desc = rtask(v, Names("", []))
+            desc = rtask(v, Names("", [])) + "#" + _fingerprint(v)
             if k in seen and seen[k][1] != desc:
                 bad.append(f"key {k!r} defined by {seen[k][0]} and {type(e).__name__} with different tasks")
             seen.setdefault(k, (type(e).__name__, desc))
+    return bad
+
+
+def _foreign_key_defs(expr):
+    """A layer defining a key `(name of one of its dependencies, i)` (keys unique to the owner)."""
+    bad = []
+    for e in expr.walk():
+        deps = {d._name for d in e.dependencies() if isinstance(d._name, str)} - {e._name}
+        if not deps or type(e).__name__ in ("FromGraph", "_DelayedExpr"):
+            continue
+        for k in e._layer():
+            if isinstance(k, tuple) and k and k[0] in deps:
+                bad.append(f"{type(e).__name__} defines the key {k!r} of its dependency")
+                break
     return bad
 
 
@@ -61,7 +138,15 @@ def check_plan(expr):
     if pk and "no-serialize" in pk.lower():
         problems.append("graph pickles an expression: " + pk)
     problems += _layer_overlaps(expr)[:2]
+    problems += _foreign_key_defs(expr)[:2]
     return problems, req
+
+
+MUST = (
+    "shift1/diff1/self_add", "two_shifts", "two_diffs_frame", "nested_fused", "nested_fused3", "upper_first_shared_stage",
+    "upper_first_shared_stage_rep", "stage_first_shared_stage", "nested_fused_deps", "nested_fused_deps3", "two_reparts_up",
+    "two_reparts_mixed", "two_reparts_size", "shuffle_b/tail2/id", "shuffle_b/tail2/count", "cumsum/id", "merge_inner", "concat",
+    "shift1/self_add", "head3/id", "repart5/shuffle_b/id", "shuffle_b_disk/id", "diff1/shift1/id")
 
 
 def _plan_cases(ctx, broken):
@@ -69,71 +154,265 @@ def _plan_cases(ctx, broken):
     n = 60 if ctx.quick else 1500
     sel = plans.seeded_slice(ctx, progs, n)
     # always include the shapes known to be delicate
-    must = [p for p in progs if p.name in (
-        "shift1/diff1/self_add", "two_shifts", "two_diffs_frame", "nested_fused", "nested_fused3", "upper_first_shared_stage", "upper_first_shared_stage_rep", "stage_first_shared_stage", "nested_fused_deps", "nested_fused_deps3", "two_reparts_up", "two_reparts_mixed", "two_reparts_size", "shuffle_b/tail2/id", "shuffle_b/tail2/count", "cumsum/id", "merge_inner", "concat", "shift1/self_add",
-        "head3/id", "repart5/shuffle_b/id", "shuffle_b_disk/id", "diff1/shift1/id")]
+    must = [p for p in progs if p.name in MUST]
     return must + sel
 
 
+_CHECKED = {}  # (kind, program name, layout, tier) -> [(stage, problems, request, class names)]
+
+
+def _checked(kind, name, layout, build, stages=None):
+    key = (kind, name, layout, tuple(stages) if stages else None)
+    if key in _CHECKED:
+        return _CHECKED[key]
+    res = []
+    sts = []
+    try:
+        q = build()
+        expr = q.expr if hasattr(q, "expr") else None
+    except Exception:  # noqa: BLE001  (scalars have no graph)
+        expr = None
+    if expr is not None:
+        try:
+            sts = plans.stage_exprs(expr, stages or plans.STAGES)
+        except Exception:  # noqa: BLE001  (optimizer failures belong to C01): keep the stages that can be built
+            for st in ["unoptimized"] + list(stages or plans.STAGES):
+                try:
+                    sts += [x for x in plans.stage_exprs(expr, [] if st == "unoptimized" else [st]) if x[0] == st]
+                except Exception:  # noqa: BLE001
+                    pass
+    for st, e in sts:
+        problems, req = check_plan(e)
+        res.append((st, problems, req, sorted({type(n).__name__ for n in e.walk()}), e))
+    _CHECKED[key] = res
+    return res
+
+
+def _vetted_runs(ctx, broken, layouts):
+    for p in _plan_cases(ctx, broken):
+        for layout in layouts:
+            for rec in _checked("vetted", p.name, layout, lambda p=p, layout=layout: plans.build(p, layout)):
+                yield ("vetted", p.name, layout) + rec
+
+
+def _extra_runs(ctx):
+    for name, thunk in c09_layers.extra_programs().items():
+        for rec in _checked("extra", name, 0, thunk):
+            yield ("extra", name, 0) + rec
+
+
 def fam_real_graphs(ctx):
-    """T3: the Lean-proven checker accepts the real graph of every vetted plan at every stage."""
+    """T3: the Lean-proven checker accepts the real graph of every vetted plan and every extra program at every stage."""
     f = Family("proven_checker_on_real_graphs[Expr.__dask_graph__]")
     reqs, inputs = [], []
-    for p in _plan_cases(ctx, []):
-        for layout in ([0, 3] if ctx.quick else [0, 1, 3]):
-            try:
-                q = plans.build(p, layout)
-            except Exception:  # noqa: BLE001
-                continue
-            if not hasattr(q, "expr"):
-                continue
-            try:
-                stages = plans.stage_exprs(q.expr)
-            except Exception:  # noqa: BLE001
-                continue  # optimizer failures belong to C01
-            for st, e in stages:
-                problems, req = check_plan(e)
-                reqs.append(req)
-                inputs.append({"program": p.name, "layout": layout, "stage": st, "problems": problems})
+    classes = {}
+    runs = list(_vetted_runs(ctx, [], [0, 3] if ctx.quick else [0, 1, 3])) + list(_extra_runs(ctx))
+    for kind, name, layout, st, problems, req, cls, _e in runs:
+        reqs.append(req)
+        inputs.append({"program": name, "space": kind, "layout": layout, "stage": st, "problems": problems})
+        for c in cls:
+            classes[c] = classes.get(c, 0) + 1
     model = drive(reqs)
     code = ["OK" if not i["problems"] else "PROBLEMS " + "; ".join(i["problems"]) for i in inputs]
     f.compare([{k: v for k, v in i.items() if k != "problems"} for i in inputs], code, model)
+    from harness import extractors_layers as el
+
+    table = [r["name"] for r in el.layer_rows() if not r["abstract"]]
+    hit = {c: classes.get(c, 0) for c in table}
+    never = sorted(c for c, n in hit.items() if n == 0 and c not in ("Expr", "_expr.Expr", "PartitionsFiltered", "LocBase", "Blockwise"))
+    f.note = (f"{len(runs)} real graphs; graphs containing each UNMODELLED class: "
+              + ", ".join(f"{c}={hit.get(c, 0)}" for c in UNMODELLED)
+              + "; table classes in no checked graph: " + (",".join(never) or "none"))
+    return f
+
+
+def fam_blockwise(ctx):
+    extra = [(f"{name}@{st}", e) for _k, name, _l, st, _p, _r, _c, e in list(_vetted_runs(ctx, [], [0])) if st in ("unoptimized", "fused")]
+    return c09_layers.fam_blockwise_shape(ctx, extra)
+
+
+def fam_table_lists(ctx):
+    """the committed `knownUnmodelled` of Props/C09.lean, PARTIAL of this module and the live table agree"""
+    from harness import extractors_layers as el
+
+    f = Family("unmodelled_lists[knownUnmodelled (Lean) = UNMODELLED (harness) = uncovered classes of the live table]")
+    live = sorted(r["name"] for r in el.layer_rows() if not r["covered"])
+    f.compare([{"list": "Lean knownUnmodelled"}, {"list": "harness UNMODELLED"}],
+              [sorted(_known_unmodelled_lean()), sorted(UNMODELLED)], [live, live])
+    f.exhaustive = True
     return f
 
 
 def families(ctx):
-    return [c12.fam_graphs, fam_real_graphs]
+    return [c12.fam_graphs, fam_real_graphs, c09_layers.fam_flat, c09_layers.fam_gather, fam_blockwise,
+            c09_layers.fam_repartition_hyps, c09_layers.fam_sources, fam_table_lists]
+
+
+# --------------------------------------------------------------------------- support / failing-input search
+
+
+def _suspect_classes(broken):
+    """Class names a broken obligation points at: the class of a disagreeing family input, the classes whose source
+    hash differs from the committed one, the classes of the live table that no theorem covers."""
+    from harness import extractors_layers as el
+
+    out = []
+    for b in broken:
+        if b.get("kind") == "correspondence":
+            inp = (b.get("first") or {}).get("input")
+            if isinstance(inp, dict) and inp.get("class"):
+                out.append(str(inp["class"]).split("@")[0])
+            if "Shuffle" in b.get("family", ""):
+                out += ["TaskShuffle", "SimpleShuffle", "DiskShuffle"]
+        elif b.get("kind") == "proof":
+            rows = el.layer_rows()
+            committed = el.committed_hashes()
+            if b.get("theorem") == "C09_layer_sources_unchanged":
+                out += [r["name"] for r in rows if r["covered"] and committed.get(r["name"]) != r["hash"]]
+            if b.get("theorem") in ("C09_layer_classes_covered", "C09_layer_known_unmodelled_exact"):
+                known = set(_known_unmodelled_lean())
+                out += [r["name"] for r in rows if not r["covered"] and r["name"] not in known]
+    # subclasses inherit the changed method
+    seen = []
+    for c in out:
+        if c not in seen:
+            seen.append(c)
+    return seen
+
+
+def _uses(cls_names, suspects):
+    if not suspects:
+        return False
+    from harness.extractors import live_expr_classes
+
+    byname = {c.__qualname__: c for c in live_expr_classes()}
+    sus = [byname[s] for s in suspects if s in byname]
+    for n in cls_names:
+        c = byname.get(n)
+        if n in suspects or (c is not None and any(issubclass(c, s) for s in sus)):
+            return True
+    return False
+
+
+CROSS_LISTED = {  # open findings recorded under another property whose failing cases also violate C09
+    "D66": ("C11", {"mechanism": "broadcast-join"}),
+}
+
+
+def _cross_listed(failure):
+    for fid, (pid, _sig) in CROSS_LISTED.items():
+        if failure.sig.get("cross") == fid and any(f["id"] == fid and f.get("status") == "open" for f in known_findings(pid)):
+            return fid
+    return None
+
+
+def _bjoin_filtered_witness():
+    """D66 as a C09 violation: a BroadcastJoin under a partition selection does not define the keys it is asked for"""
+    import dask_expr as dx
+
+    big = dx.from_pandas(c09_layers._pdf(12), npartitions=3, sort=False)
+    small = dx.from_pandas(c09_layers._pdf(4)[["b", "a"]].rename(columns={"a": "ra"}), npartitions=2, sort=False)
+    q = big.merge(small, on="b", broadcast=True, shuffle_method="tasks").partitions[[2]]
+    e = q.optimize(fuse=False).expr
+    if not any(type(n).__name__ == "BroadcastJoin" for n in e.walk()):
+        return None
+    problems, _ = check_plan(e)
+    return problems
+
+
+def _persist_overlap_witness():
+    """`x = df + 1; p = x.persist(); p + x` (fuse=False): the FromGraph layer of `p` holds the computed partitions under
+    the ORIGINAL keys `(x._name, i)`, the layer of `x` defines the same keys as tasks — one key, two different tasks
+    (equal values: dask keeps the names of persisted keys on purpose; which one `toolz.merge` keeps only decides
+    whether the partition is recomputed)."""
+    import dask_expr as dx
+
+    df = dx.from_pandas(c09_layers._pdf(12), npartitions=3, sort=False)
+    x = df + 1
+    q = x.persist() + x
+    e = q.optimize(fuse=False).expr
+    problems, _ = check_plan(e)
+    return [p for p in problems if "different tasks" in p]
+
+
+CANDIDATES = {  # observations on the unchanged tree that are reported, not counted, until they are triaged into known_findings.json
+    "persist-key-overlap": {"kind": "layer-overlap", "what": "persisted key redefined by its original expression"},
+}
+
+
+def _triaged(sig):
+    """has the candidate been recorded (any status) under C09 with this `what`?"""
+    return any(f.get("signature", {}).get("what") == sig["what"] for f in known_findings("C09"))
 
 
 def support(ctx, broken):
-    """Failing-input search = the same structural obligations, reported per concrete program."""
+    """Failing-input search = the same structural obligations, reported per concrete program; steered towards the
+    programs whose plans contain a class a broken obligation points at."""
     sup = Support()
-    for p in _plan_cases(ctx, broken):
-      for layout in (0, 3):
-        try:
-            q = plans.build(p, layout)
-            if not hasattr(q, "expr"):
-                continue
-            stages = plans.stage_exprs(q.expr)
-        except Exception:  # noqa: BLE001
-            continue
-        for st, e in stages:
-            sup.executed += 1
-            sup.count(st)
-            problems, _ = check_plan(e)
-            if problems:
-                sup.failures.append(Failure(sig={"kind": "graph", "program": p.name, "stage": st},
-                                            case={"program": p.name, "layout": layout, "stage": st},
-                                            detail="; ".join(problems)))
+    suspects = _suspect_classes(broken)
+    runs = list(_extra_runs(ctx)) + list(_vetted_runs(ctx, broken, (0, 3)))
+    if suspects:
+        # widen: scan more of the vetted space for plans that contain a suspect class
+        progs = programs.valid_programs(2, "any")
+        extra = plans.seeded_slice(ctx, progs, 150 if ctx.quick else 2500)
+        found = 0
+        for p in extra:
+            recs = _checked("vetted", p.name, 0, lambda p=p: plans.build(p, 0), ["fused"])
+            if any(_uses(r[3], suspects) for r in recs):
+                found += 1
+                runs = [("vetted", p.name, 0) + r for r in recs] + runs
+            if found >= (25 if ctx.quick else 400):
+                break
+        runs.sort(key=lambda r: 0 if _uses(r[6], suspects) else 1)
+        sup.count("steered:" + ",".join(suspects)[:80])
+    for kind, name, layout, st, problems, _req, cls, _e in runs:
+        sup.executed += 1
+        sup.count(st)
+        if problems:
+            sup.failures.append(Failure(sig={"kind": "graph", "program": name, "stage": st},
+                                        case={"space": kind, "program": name, "layout": layout, "stage": st},
+                                        detail="; ".join(problems)))
         if len(sup.failures) >= 5:
             break
-    sup.samples = [{"program": p.name} for p in _plan_cases(ctx, broken)[:3]]
+    # D66 (open, listed under C11) is a C09 violation as well: keep it visible, do not count it as new
+    try:
+        pr = _bjoin_filtered_witness()
+    except Exception as ex:  # noqa: BLE001
+        pr = [f"witness raised {type(ex).__name__}"]
+    if pr:
+        fl = Failure(sig={"kind": "layer-contract", "class": "BroadcastJoin", "what": "output keys numbered by original partition under a _partitions selection", "cross": "D66"},
+                     case={"space": "witness", "program": "bjoin_filtered"}, detail="; ".join(pr))
+        fid = _cross_listed(fl)
+        if fid:
+            sup.count(f"cross-listed:{fid}")
+            print(f"KNOWN-FINDING(cross-listed {CROSS_LISTED[fid][0]}/{fid}): property=C09 BroadcastJoin under a partition selection: {fl.detail[:200]}")
+        else:
+            sup.failures.append(fl)
+    try:
+        pr = _persist_overlap_witness()
+    except Exception as ex:  # noqa: BLE001
+        pr = []
+        sup.count(f"persist-witness-raised:{type(ex).__name__}")
+    if pr:
+        sig = CANDIDATES["persist-key-overlap"]
+        if _triaged(sig):
+            sup.failures.append(Failure(sig=dict(sig), case={"space": "witness", "program": "persist_overlap"}, detail="; ".join(pr)))
+        else:
+            sup.count("candidate:persist-key-overlap")
+            print(f"CANDIDATE-FINDING: property=C09 sig={sig} x=df+1; p=x.persist(); (p+x).optimize(fuse=False): {pr[0][:160]}")
+    sup.samples = [{"program": r[1], "space": r[0]} for r in runs[:3]]
     return sup
 
 
 def replay(case):
-    progs = {p.name: p for p in programs.valid_programs(2, "any")}
-    q = plans.build(progs[case["program"]], case.get("layout", 0))
+    if case.get("space") == "witness":
+        pr = _persist_overlap_witness() if case.get("program") == "persist_overlap" else _bjoin_filtered_witness()
+        return Failure(sig={}, case=case, detail="; ".join(pr)) if pr else None
+    if case.get("space") == "extra":
+        q = c09_layers.extra_programs()[case["program"]]()
+    else:
+        progs = {p.name: p for p in programs.valid_programs(2, "any")}
+        q = plans.build(progs[case["program"]], case.get("layout", 0))
     for st, e in plans.stage_exprs(q.expr):
         if st == case["stage"]:
             problems, _ = check_plan(e)
